@@ -248,7 +248,7 @@ def run(tier, seed, replay=None):
                         F.run_scan(root, [])
                         F.write_file(root, "a.py", 31)            # one file changed since the cached scan
                     env = dict(os.environ, PYTHONPATH=REPO, LC_ALL="C", PYTHONDONTWRITEBYTECODE="1")
-                    subprocess.run(["/venv/bin/python", "-c", child, str(n), mode, root], env=env, capture_output=True, timeout=120)
+                    subprocess.run(["/venv/bin/python", "-c", child, str(n), mode, root], env=env, capture_output=True, timeout=600)
                     left = sorted(os.listdir(os.path.join(root, ".codelimit_cache"))) if os.path.isdir(os.path.join(root, ".codelimit_cache")) else None
                     fresh, _ = F.fresh_report(root, [], root + "_fresh")
                     probs = []
